@@ -8,7 +8,7 @@ tie:     translators (AST, fail-closed, cross-checked against the imported modul
 search:  the real code against the property's own oracle (documents built by lib/c18_docs.py, the real jsonschema under root
          MetaModel as validity reference, python -m generator runs for the gate); witnesses for failing checker sites are
          synthesised from the schema file.
-known findings: keys loader:<kind> | loader:<Def>.<prop> | eq-raises:<Class> | eq-ignores:<attr> | gate:<edit kind> | merge:<...>
+known findings: keys loader:<kind> | loader:<Def>.<prop> | eq-raises:<Class> | eq-ignores:<attr> | gate:<edit kind> | merge | purity:<aspect>
 """
 import concurrent.futures
 import copy
@@ -27,7 +27,9 @@ RULE = ("documents: the committed lsp.json (whole); one small document per featu
         "map key kinds, extends/mixins present/absent/empty, every annotation at every node class, params as array, enumerations of each base "
         "type); seeded random schema-valid edits of samples of lsp.json (drop/add annotation, reorder, add feature declarations, shuffle keys, "
         "extends); 47 single schema-violating edits of a base document (missing required key, unknown property, wrong JSON type, bad enum, "
-        "type expression not an object, null annotation); model groups for create_lsp_model; all pairs of 12 edited documents plus "
+        "type expression not an object, null annotation) and 5 extension files violating the schema only at their top level; model groups for "
+        "create_lsp_model, incl. first files with empty sections, each merged twice on the same in-memory documents (inputs compared before/after, "
+        "earlier model re-read, first document loaded alone afterwards); all pairs of 12 edited documents plus "
         "single-skeleton-attribute mutation pairs for ==; schema-violating edits x plugins for the gate. A case counts as distinct "
         "non-trivial by (stream, canonical input) hash; the empty document is the only trivial one.")
 
@@ -257,10 +259,37 @@ def replay_obj(r):
         want = concat_oracle(inp["docs"])
         bad = (not res["ok"]) or not D.sim(res["readback"], want)
         return bad, "create_lsp_model: %s" % ("raises " + res.get("exc", "") if not res["ok"] else "read-back ~ concatenation: %s" % (not bad))
+    if kind == "purity":
+        res = real("purity", groups=[inp["docs"]])[0]
+        v = purity_verdict(inp["docs"], res)
+        return v is not None, ("%s: %s" % v) if v else "merging twice on the same in-memory documents: inputs unchanged, same model, earlier model unchanged"
     if kind == "gate":
         g = run_generator(inp["docs"], inp["plugin"])
         return gate_fails(g), "rc=%s written=%s plugin reached=%s" % (g["rc"], g["n_written"], g["reached"])
     return None, "no concrete input recorded"
+
+
+def purity_verdict(group, r):
+    """the loader is a function of the documents: (first failing aspect, everything that was observed), or None"""
+    want = concat_oracle(group)
+    if not r["ok"]:
+        return "raises", "%s: %s" % (r["exc"], r["msg"][:160])
+    obs = []
+    if not D.sim(r["first"], want):
+        obs.append(("first-merge-not-concatenation", "read-back of create_lsp_model(docs) differs from the concatenation"))
+    if r["inputs_after_first"] != group or r["inputs_after_second"] != group or not r["single_load_keeps_input"]:
+        after = r["inputs_after_second"]
+        where = [(i, k, len(after[i][k]), len(group[i][k])) for i in range(len(group)) for k in D.LISTS
+                 if isinstance(after[i].get(k), list) and after[i][k] != group[i][k]]
+        obs.append(("input-mutated", "loading modified its input documents: (document, section, entries now, entries before) = %s" % where[:4]))
+    if not D.sim(r["second"], want):
+        n = {k: (len(r["second"].get(k, [])), len(want[k])) for k in D.LISTS if len(r["second"].get(k, [])) != len(want[k])}
+        obs.append(("second-merge-differs", "the same in-memory documents merged a second time give (entries, expected) per section = %s" % n))
+    if not D.sim(r["first_reread"], want):
+        obs.append(("earlier-model-changed", "the model returned by the first merge changed when the documents were loaded again"))
+    if not D.sim(r["first_document_alone"], group[0]):
+        obs.append(("first-document-alone-differs", "the first document loaded alone afterwards does not read back as that document"))
+    return (obs[0][0], "; ".join(b for _, b in obs)) if obs else None
 
 
 def concat_oracle(docs):
@@ -306,7 +335,8 @@ def run(chk):
         "specification choices of DESIGN C18: the relation ~ (jeqv), the structural skeleton (SKNAMES), numbers are integers, enumeration values typed by their base type",
     ]
     chk.assumptions = ["documents are JSON values as a parser produces them (unique object keys, no NaN); uuid4 values are pairwise distinct; "
-                       "the plugin is an arbitrary function of (model, files) in the gate theorem"]
+                       "the plugin is an arbitrary function of (model, files) in the gate theorem; the loader is a function of the JSON value (no aliasing of, "
+                       "or writing to, its input) - checked on the real code by the purity stream"]
     schema = json.load(open(os.path.join(V.REPO, "generator", "lsp.schema.json")))
     committed = json.load(open(os.path.join(V.REPO, "generator", "lsp.json")))
     failed = []            # (what, name, detail): obligations that broke
@@ -525,7 +555,7 @@ def run(chk):
         feats = D.feature_docs()
         n_rand = 40 if quick else 400
         valid_docs = [("feature:" + f, d) for f, d in feats] + [("random:" + "+".join(l), d) for l, d in (D.random_valid(committed, rng, feats) for _ in range(n_rand))]
-        invalid_docs = [("invalid:" + l, d) for l, d in D.invalid_edits()]
+        invalid_docs = [("invalid:" + l, d) for l, d in D.invalid_edits() + D.invalid_extensions()]
         docs = [("committed", committed)] + valid_docs + invalid_docs
         if not quick:     # every declaration of the committed document on its own
             for k in D.LISTS:
@@ -577,6 +607,25 @@ def run(chk):
                 if bad and "merge" not in known_keys:
                     add_violation("merge", {"kind": "create", "input": {"docs": g}, "expected": "the first model extended in order by the others' declarations",
                                             "observed_impl": "raises " + c.get("exc", "") if not c["ok"] else "read-back differs from the concatenation"})
+        # purity: the loader is a function of the documents (what the Coq model assumes, and what "merge is concatenation" and
+        # "two loads of the same document" need): one in-memory copy of each group is merged twice, the inputs are compared
+        # before/after, the first model is re-read, the first document is loaded alone afterwards
+        pgroups = D.purity_groups(feats) + [("stream-group", g) for g in groups if len(g) >= 2]
+        ploaded = [all(l["ok"] and D.sim(l["readback"], x) for l, x in zip(real("load", docs=g), g)) for _, g in pgroups]
+        pres = real("purity", groups=[g for _, g in pgroups])
+        n_pure = 0
+        for (lab, g), okg, r in zip(pgroups, ploaded, pres):
+            chk.count(("purity", D.strict_dumps(g)))
+            if not okg:
+                continue
+            n_pure += 1
+            v = purity_verdict(g, r)
+            if v and ("purity:" + v[0]) not in known_keys:
+                add_violation("purity:" + v[0], {"kind": "purity", "label": lab, "input": {"docs": g},
+                                                   "expected": "create_lsp_model(docs) twice on the same in-memory documents: inputs unchanged, both models read back as the concatenation, "
+                                                               "the first model unchanged by the second call, the first document alone reads back as itself",
+                                                   "observed_impl": "%s: %s" % v})
+        chk.obligation("search:loader-is-a-function-of-the-documents", not any(k.startswith("purity:") for k in viol), "%d model groups (first file with empty sections included)" % n_pure)
         # equality: all pairs of a small family + single skeleton-attribute mutations
         fam = eq_family(committed, rng)
         epairs = [(i, j) for i in range(len(fam)) for j in range(len(fam))]
@@ -624,6 +673,11 @@ def run(chk):
             for pl in plugins:
                 jobs.append((lab, [d], pl))
         jobs.append(("invalid:second-file-missing-result", [fd["base"], dict(D.invalid_edits())["missing-result"]], "python"))
+        # a NON-first model file whose only violation is at its top level (metaData, unknown key), after a valid first file
+        for lab, d in D.invalid_extensions():
+            if ("invalid:" + lab, d) in inval:
+                for pl in plugins:
+                    jobs.append(("invalid:second-file-" + lab, [committed if pl != "testdata" else fd["base"], d], pl))
         big = copy.deepcopy(committed)
         del big["requests"][0]["result"]          # the committed model with one schema-required key removed
         jobs = [(lab, [big], pl) if (lab == "invalid:missing-result" and pl != "testdata") else (lab, ds, pl) for lab, ds, pl in jobs]
@@ -682,7 +736,7 @@ def run(chk):
                 failed.append(("correspondence", "LSP.Loader / LSP.JSchema vs the real code", json.dumps(disagreements[:3])[:3000]))
         chk.extra["traces_validated_against_impl"] = n_corr
         chk.extra["input_distribution"] = {"documents": len(docs), "feature": len(feats), "random_valid": n_rand, "invalid_single_edits": len(invalid_docs),
-                                           "create_groups": len(groups), "eq_pairs": len(epairs), "gate_runs": len(jobs)}
+                                           "create_groups": len(groups), "purity_groups": len(pgroups), "eq_pairs": len(epairs), "gate_runs": len(jobs)}
 
     # -------------------------------------------------------------------- 8. verdict
     for key, obj in sorted(viol.items()):
